@@ -1,7 +1,17 @@
 /-
 Trace validation for C02/C07: decide whether the per-thread event sequences logged by the hooked
 grcov binary are jointly realisable by a run of the `Pipeline` model (cross-thread order in the
-log is not trusted: only each thread's own program order and the FIFO queue).
+log is not trusted: only each thread's own program order and the FIFO queue – with one exception,
+the capacity bound below, which uses the order of `send` and `recv` log lines in a sound way).
+
+Worker events: `r<i>` recv of item i, `m<i>` merged, `x<i>` rejected, `d<i>` died holding i,
+`s` stop marker, `e` exit, and – when the hooks log them – `l` (the result-map mutex acquired),
+`u` (about to be released), `D` (the thread died while it held no item). Without `l`/`u` events
+an `m<i>` stands for the whole sequence parsed · lock · mergeEntry* · unlock of that worker, done
+in one go (the mutex is then free between any two logged events). With them, `l` = parsed · lock,
+`u` = mergeEntry* · unlock, and `m<i>` must follow the `u` of item i: two workers whose
+lock…unlock sections overlap, or a batch written under more than one lock/unlock pair, have no
+realisation.
 -/
 import GrcovModel.Pipeline
 import GrcovModel.Drv.Common
@@ -10,6 +20,7 @@ open Grcov.Pipeline
 
 inductive WEv where
   | recv (i : Item) | merged (i : Item) | rejected (i : Item) | died (i : Item) | stop | exit
+  | lockEv | unlockEv | diedIdle
 deriving Repr
 
 inductive MEv where
@@ -21,18 +32,31 @@ structure RState where
   prod : List Item
   ws : List (List WEv)
   mainEvs : List MEv
-  /-- items the producer never attempted: if > 0 its last logged send must have failed -/
+  /-- items the producer never attempted: if > 0 its last logged send must have failed, or the
+  producer died for another reason (`prodDies`) -/
   unsent : Nat := 0
+  /-- the producer thread panicked (not through a failed send) after its last logged send -/
+  prodDies : Bool := false
   steps : Nat := 0
   /-- the process was cut short by `process::exit(1)` in main: a worker whose logged events are
   used up may have taken one more element from the queue without reaching its log call -/
   ghost : Bool := false
   ghosted : List Nat := []
+  /-- (worker, item) pairs unlocked but whose `merged` event was not consumed yet -/
+  unlocked : List (Nat × Item) := []
 
 def fateOf (ws : List (List WEv)) (x : Item) : Fate :=
   if ws.any (fun evs => evs.any fun e => match e with | .rejected i => i == x | _ => false) then .reject
   else if ws.any (fun evs => evs.any fun e => match e with | .died i => i == x | _ => false) then .die
   else .ok
+
+/-- the trace carries no batch sizes: every batch has one entry -/
+def size1 : Item → Nat := fun _ => 1
+
+/-- apply the steps in turn; `none` when one of them is not enabled -/
+def applyAll (fate : Item → Fate) (s : State) : List Step → Option State
+  | [] => some s
+  | st :: rest => if enabled size1 s st then applyAll fate (step fate s st) rest else none
 
 /-- every move that consumes the next logged event of some thread and is enabled in the model -/
 def movesAll (fate : Item → Fate) (r : RState) : List RState :=
@@ -40,26 +64,29 @@ def movesAll (fate : Item → Fate) (r : RState) : List RState :=
   let p : List RState :=
     match r.prod with
     | i :: rest =>
-      if s.todo.head? == some i && enabled s .prodSend
-          && (!(rest.isEmpty && r.unsent > 0) || !receiversAlive s) then
+      if s.todo.head? == some i && enabled size1 s .prodSend
+          && (!(rest.isEmpty && r.unsent > 0) || !receiversAlive s || r.prodDies) then
         [{ r with s := step fate s .prodSend, prod := rest, steps := r.steps + 1 }] else []
-    | [] => if enabled s .prodExit then [{ r with s := step fate s .prodExit, steps := r.steps + 1 }] else []
+    | [] =>
+      if r.prodDies then
+        (if enabled size1 s .prodDies then [{ r with s := step fate s .prodDies, steps := r.steps + 1 }] else [])
+      else if enabled size1 s .prodExit then [{ r with s := step fate s .prodExit, steps := r.steps + 1 }] else []
   let m : List RState :=
     match r.mainEvs with
     | .joined :: rest =>
-      if s.mainPc == .joinProd && enabled s .main then
+      if s.mainPc == .joinProd && enabled size1 s .main then
         [{ r with s := step fate s .main, mainEvs := rest, steps := r.steps + 1 }] else []
     | .stopSend :: rest =>
       match s.mainPc with
-      | .stops k => if k < s.n && enabled s .main then
+      | .stops k => if k < s.n && enabled size1 s .main then
           [{ r with s := step fate s .main, mainEvs := rest, steps := r.steps + 1 }] else []
       | _ => []
     | .workerJoined :: rest =>
       match s.mainPc with
       | .stops k => -- the silent step `stops n → joinWorkers 0`
-        if k ≥ s.n && enabled s .main then [{ r with s := step fate s .main, steps := r.steps + 1 }] else []
+        if k ≥ s.n && enabled size1 s .main then [{ r with s := step fate s .main, steps := r.steps + 1 }] else []
       | .joinWorkers i =>
-        if i < s.n && enabled s .main && (s.workers.getD i .exited) == .exited then
+        if i < s.n && enabled size1 s .main && (s.workers.getD i .exited) == .exited then
           [{ r with s := step fate s .main, mainEvs := rest, steps := r.steps + 1 }] else []
       | _ => []
     | [] => []
@@ -67,49 +94,77 @@ def movesAll (fate : Item → Fate) (r : RState) : List RState :=
     match post with
     | [] => []
     | evs :: post' =>
+      let adv (s' : State) (evs' : List WEv) (n : Nat) : RState :=
+        { r with s := s', ws := pre ++ [evs'] ++ post', steps := r.steps + n }
       let next : List RState :=
         match evs with
         | .recv i :: evs' =>
-          if enabled s (.recv k) && s.queue.head? == some (some i) then
-            [{ r with s := step fate s (.recv k), ws := pre ++ [evs'] ++ post', steps := r.steps + 1 }] else []
+          if enabled size1 s (.recv k) && s.queue.head? == some (some i) then
+            [adv (step fate s (.recv k)) evs' 1] else []
         | .stop :: evs' =>
-          if enabled s (.recv k) && s.queue.head? == some none then
-            [{ r with s := step fate s (.recv k), ws := pre ++ [evs'] ++ post', steps := r.steps + 1 }] else []
+          if enabled size1 s (.recv k) && s.queue.head? == some none then
+            [adv (step fate s (.recv k)) evs' 1] else []
         | .merged i :: evs' =>
-          if enabled s (.finish k) && s.workers.getD k .exited == .holding i && fate i == .ok then
-            [{ r with s := step fate s (.finish k), ws := pre ++ [evs'] ++ post', steps := r.steps + 1 }] else []
+          if s.workers.getD k .exited == .holding i && fate i == .ok then
+            match applyAll fate s [.parsed k, .lock k, .mergeEntry k, .unlock k] with
+            | some s' => if s'.workers.getD k .exited == .idle then [adv s' evs' 4] else []
+            | none => []
+          else if s.workers.getD k .exited == .idle && r.unlocked.contains (k, i) then
+            [{ adv s evs' 0 with unlocked := r.unlocked.erase (k, i) }]
+          else []
+        | .lockEv :: evs' =>
+          match s.workers.getD k .exited with
+          | .holding i =>
+            if fate i == .ok then
+              match applyAll fate s [.parsed k, .lock k] with
+              | some s' => if (match s'.workers.getD k .exited with | .merging _ _ => true | _ => false)
+                  then [adv s' evs' 2] else []
+              | none => []
+            else []
+          | _ => []
+        | .unlockEv :: evs' =>
+          match s.workers.getD k .exited with
+          | .merging i _ =>
+            match applyAll fate s [.mergeEntry k, .unlock k] with
+            | some s' => [{ adv s' evs' 2 with unlocked := (k, i) :: r.unlocked }]
+            | none => []
+          | _ => []
         | .rejected i :: evs' =>
-          if enabled s (.finish k) && s.workers.getD k .exited == .holding i && fate i == .reject then
-            [{ r with s := step fate s (.finish k), ws := pre ++ [evs'] ++ post', steps := r.steps + 1 }] else []
+          if enabled size1 s (.parsed k) && s.workers.getD k .exited == .holding i && fate i == .reject then
+            [adv (step fate s (.parsed k)) evs' 1] else []
         | .died i :: evs' =>
-          if enabled s (.finish k) && s.workers.getD k .exited == .holding i && fate i == .die then
-            [{ r with s := step fate s (.finish k), ws := pre ++ [evs'] ++ post', steps := r.steps + 1 }] else []
+          if enabled size1 s (.parsed k) && s.workers.getD k .exited == .holding i && fate i == .die then
+            [adv (step fate s (.parsed k)) evs' 1] else []
+        | .diedIdle :: evs' =>
+          if enabled size1 s (.workerDies k) && s.workers.getD k .exited == .idle then
+            [adv (step fate s (.workerDies k)) evs' 1] else []
         | .exit :: evs' =>
-          if s.workers.getD k .idle == .exited then [{ r with ws := pre ++ [evs'] ++ post' }] else []
+          if s.workers.getD k .idle == .exited then [adv s evs' 0] else []
         | [] =>
-          if r.ghost && !r.ghosted.contains k && enabled s (.recv k) then
+          if r.ghost && !r.ghosted.contains k && enabled size1 s (.recv k) then
             [{ r with s := step fate s (.recv k), ghosted := k :: r.ghosted, steps := r.steps + 1 }] else []
       next ++ ws (k + 1) (pre ++ [evs]) post'
   p ++ ws 0 [] r.ws ++ m
 
 def keyOf (r : RState) : String :=
-  s!"{r.prod.length}/{r.mainEvs.length}/{r.ws.map List.length}/{repr r.s.mainPc}/{r.s.prodDead}/{r.s.prodDone}/{r.s.queue.length}/{r.ghosted}"
+  s!"{r.prod.length}/{r.mainEvs.length}/{r.ws.map List.length}/{repr r.s.mainPc}/{r.s.prodDead}/{r.s.prodDone}/{r.s.queue.length}/{r.ghosted}/{r.s.owner}/{r.unlocked.length}"
 
 def allConsumed (r : RState) : Bool := r.prod.isEmpty && r.ws.all List.isEmpty && r.mainEvs.isEmpty
 
-/-- silent tail of main once every logged event is consumed -/
+/-- silent tail once every logged event is consumed: a producer death that was announced, then
+main's own steps -/
 def finishMain (fate : Item → Fate) : Nat → State → State
   | 0, s => s
-  | fuel + 1, s => if !terminal s && enabled s .main then finishMain fate fuel (step fate s .main) else s
+  | fuel + 1, s => if !terminal s && enabled size1 s .main then finishMain fate fuel (step fate s .main) else s
 
 /-- depth-first search for a realisation of the per-thread event sequences by a model run -/
 def replayLog (fate : Item → Fate) : Nat → List RState → List String → String
   | 0, _, _ => "rejected fuel"
   | _, [], seen => s!"rejected no-realisation explored={seen.length}"
   | fuel + 1, r :: stack, seen =>
-    if allConsumed r then
+    if allConsumed r && !(r.prodDies && enabled size1 r.s .prodDies) then
       let s := finishMain fate (2 * r.s.n + 4) r.s
-      let code := match s.mainPc with | .done c => s!"exit={c}" | _ => if stuck s then "stuck" else "running"
+      let code := match s.mainPc with | .done c => s!"exit={c}" | _ => if stuck size1 s then "stuck" else "running"
       let merged := (s.merged.mergeSort (· ≤ ·)).map toString
       s!"accepted {code} merged={joinWith "," merged} steps={r.steps}"
     else
@@ -119,6 +174,8 @@ def replayLog (fate : Item → Fate) : Nat → List RState → List String → S
 
 def parseWEv (t : String) : Option WEv :=
   if t == "s" then some .stop else if t == "e" then some .exit
+  else if t == "l" then some .lockEv else if t == "u" then some .unlockEv
+  else if t == "D" then some .diedIdle
   else match t.toList with
     | 'r' :: ds => (String.ofList ds).toNat?.map .recv
     | 'm' :: ds => (String.ofList ds).toNat?.map .merged
@@ -130,8 +187,23 @@ def parseMEv (t : String) : Option MEv :=
   if t == "j" then some .joined else if t == "t" then some .stopSend
   else if t == "w" then some .workerJoined else none
 
-/-- `pipe.replay <n> <rxMain 0|1> P:1,2,3 M:j,t,t,w,w W:r1,m1,s,e W:r2,m2,s,e [G]`; a trailing `G`
-says the process ended through `process::exit(1)` while workers were still running -/
+/-- Capacity of the queue, from the order of the log lines of the producer's `send` events (written
+BEFORE the send) and the workers' `recv` events (written AFTER the receive). When the k-th `send`
+line is written the k-1 earlier sends have returned, so at most `cap` of those items are still in
+the channel; every other one was received, and all but at most one per worker of those receives
+have already been logged. Hence (k-1) - (recv lines so far) ≤ cap + n. Returns the largest value
+of the left-hand side. -/
+def maxBacklog (order : List Char) : Nat :=
+  (order.foldl (fun (acc : Nat × Nat × Nat) c =>
+    let (sends, recvs, mx) := acc
+    if c == 's' then (sends + 1, recvs, max mx (sends - recvs))
+    else if c == 'r' then (sends, recvs + 1, mx)
+    else acc) (0, 0, 0)).2.2
+
+/-- `pipe.replay <n> <rxMain 0|1> P:1,2,3 M:j,t,t,w,w W:r1,m1,s,e W:r2,m2,s,e [O:ssrsr…] [PD] [G]`;
+`O:` is the order of send/recv log lines (capacity check), `PD` says the producer thread panicked
+after its last logged send (not through a failed send), a trailing `G` says the process ended
+through `process::exit(1)` while workers were still running -/
 def handlePipeReplay : List String → String
   | n :: rx :: p :: m :: ws =>
     let go : Option String := do
@@ -145,39 +217,54 @@ def handlePipeReplay : List String → String
       let prod ← (splitList plist ",").mapM String.toNat?
       let unsent := (List.range extra).map fun i => 1000000 + i
       let mevs ← (splitList (m.drop 2).toString ",").mapM parseMEv
-      let ghost := ws.getLast? == some "G"
-      let ws := if ghost then ws.dropLast else ws
-      let wevs ← ws.mapM fun w => do
-        guard (w.startsWith "W:")
-        (splitList (w.drop 2).toString ",").mapM parseWEv
+      let ghost := ws.contains "G"
+      let pd := ws.contains "PD"
+      let order := ws.find? (·.startsWith "O:")
+      let ws := ws.filter fun t => t.startsWith "W:"
+      let wevs ← ws.mapM fun w => (splitList (w.drop 2).toString ",").mapM parseWEv
       guard (wevs.length = n)
-      let fate := fateOf wevs
-      let s0 := init n (rx == "1") (prod ++ unsent)
-      pure (replayLog fate 200000 [{ s := s0, prod := prod, ws := wevs, mainEvs := mevs, unsent := extra, ghost := ghost }] [])
+      let backlog := match order with | some o => maxBacklog (o.drop 2).toString.toList | none => 0
+      if backlog > 2 * n + n then
+        pure s!"rejected capacity backlog={backlog} bound={2 * n + n}"
+      else
+        let fate := fateOf wevs
+        let s0 := init n (rx == "1") (prod ++ unsent)
+        pure (replayLog fate 200000 [{ s := s0, prod := prod, ws := wevs, mainEvs := mevs, unsent := extra, prodDies := pd, ghost := ghost }] [])
     go.getD "bad-op"
   | _ => "bad-op"
 
-/-- `pipe.explore <n> <rxMain> <items> <die-set> <reject-set>`: exhaustive search of the model's
-reachable states for a stuck non-terminal state (bounded instances; used for replays/witnesses) -/
+/-- `pipe.stuck <n> <rxMain> <items> <die-set> [F]`: exhaustive search of the model's reachable
+states for a stuck non-terminal state or (with `F`: the injected faults `prodDies` and
+`workerDies w` are explored too) an exit status 0 after a death (bounded instances; used for
+replays/witnesses) -/
 def handlePipeStuck : List String → String
-  | [n, rx, items, dies] =>
+  | n :: rx :: items :: dies :: opt =>
     let go : Option String := do
       let n ← n.toNat?
       let items ← (splitList items ",").mapM String.toNat?
       let dies ← (splitList dies ",").mapM String.toNat?
+      let faults := opt == ["F"]
+      guard (opt == [] || faults)
       let fate : Item → Fate := fun x => if dies.contains x then .die else .ok
-      let rec bfs (fuel : Nat) (frontier : List State) (seen : Nat) : String :=
+      let faultSteps (s : State) : List Step :=
+        if faults then Step.prodDies :: (List.range s.n).map Step.workerDies else []
+      let bad (s : State) : Bool :=
+        s.mainPc == .done 0 && (s.prodDead || s.poisoned || s.workers.any (· == .dead))
+      let rec bfs (fuel : Nat) (frontier : List State) (seen : List State) : String :=
         match fuel with
-        | 0 => s!"no-stuck-state-found seen={seen} (fuel)"
+        | 0 => s!"no-stuck-state-found seen={seen.length} (fuel)"
         | fuel + 1 =>
           match frontier with
-          | [] => s!"no-stuck-state seen={seen}"
+          | [] => s!"no-stuck-state seen={seen.length}"
           | s :: rest =>
-            if stuck s then s!"stuck todo={s.todo.length} queue={s.queue.length} seen={seen}"
+            if seen.contains s then bfs fuel rest seen
+            else if stuck size1 s then s!"stuck todo={s.todo.length} queue={s.queue.length} seen={seen.length}"
+            else if bad s then s!"exit0-after-death seen={seen.length}"
             else
-              let succs := (allSteps s).filterMap fun st => if enabled s st then some (step fate s st) else none
-              bfs fuel (rest ++ succs) (seen + 1)
-      pure (bfs 200000 [init n (rx == "1") items] 0)
+              let succs := (allSteps s ++ faultSteps s).filterMap fun st =>
+                if enabled size1 s st then some (step fate s st) else none
+              bfs fuel (rest ++ succs) (s :: seen)
+      pure (bfs 200000 [init n (rx == "1") items] [])
     go.getD "bad-op"
   | _ => "bad-op"
 
